@@ -180,3 +180,37 @@ Definition ex_events : list event :=
 Definition ex_final : option st := run ex_cfg (init 10) ex_events.
 Lemma ex_accepted : exists s, ex_final = Some s /\ pc s = PDone /\ mcount s = 3 /\ length (demes s) = 3 /\ clock s = 10 + 7 + 6 + 11 + 12 + 4 + 4 + 8 + 8 + 4.
 Proof. vm_compute. eexists. split; [reflexivity|]. repeat split. Qed.
+
+(* ---------------------------------------------------------------- C06 / C18: what a scheduled deme does, and why a deme stops *)
+(* a scheduled deme's first event is an engine iteration (a generation, or one complete local search) *)
+Lemma scheduled_deme_iterates c s e s' t d g : step c s e = Some s' -> (pc s = PDeme t d g SGen \/ pc s = PDeme t d g SLocal) ->
+  (exists n, e = EGen n) \/ (exists n, e = ELocal n).
+Proof.
+  intros H [P|P]; unfold step in H; rewrite P in H; destruct e; try discriminate; eauto.
+Qed.
+Lemma begin_deme_first_sub c t s t' d g sub : pc (begin_deme c t s) = PDeme t' d g sub -> g = 0 /\ (sub = SGen \/ sub = SLocal).
+Proof.
+  rewrite begin_deme_pc. destruct t as [|x r]; [discriminate|]. intros [= <- <- <- <-]. split; [reflexivity|].
+  unfold first_sub. destruct (kind_of c _); auto.
+Qed.
+
+(* an active deme becomes inactive in one step only for one of the stated causes: the global stop condition answered true at
+   one of its consults, its local stop condition answered true, CMA-ES stopped itself, or its one-shot local search completed *)
+Definition stop_cause (e : event) : Prop := e = EGsc true \/ e = ELsc true \/ e = ECma true \/ exists n, e = ELocal n.
+Lemma deactivation_has_a_cause c s e s' i : step c s e = Some s' -> i < length (demes s) ->
+  d_active (dnth i (demes s)) = true -> d_active (dnth i (demes s')) = false ->
+  stop_cause e /\ exists t g sub, pc s = PDeme t i g sub.
+Proof.
+  intros H Hi Ha Hn. unfold stop_cause. step_cases H; kind_cases; bd.
+  all: rewrite ?(proj1 (begin_deme_fields _ _ _)) in Hn; cbn [demes] in Hn.
+  all: try (rewrite dnth_map in Hn by assumption; simpl in Hn; congruence).
+  all: repeat match type of Hn with context [match kind_of ?cc ?l with _ => _ end] => destruct (kind_of cc l) end.
+  all: repeat rewrite dnth_upd in Hn.
+  all: repeat match type of Hn with context [if ?b then _ else _] => destruct b eqn:? end; simpl in Hn; try congruence.
+  all: try solve [ split; [eauto 6|]; repeat match goal with Hb : (Nat.eqb ?a ?b && _)%bool = true |- _ => apply andb_prop in Hb as (Hb & _); apply Nat.eqb_eq in Hb; subst end; eauto ].
+  (* sprouting never deactivates *)
+  all: sprout_abs; exfalso.
+  all: try (rewrite set_hibs_dnth in Hn by (rewrite do_sprout_length; lia)).
+  all: rewrite do_sprout_prefix in Hn by assumption.
+  all: try (destruct (existsb _ _); simpl in Hn); congruence.
+Qed.
